@@ -26,7 +26,7 @@ impl Iterator for PyRange {
             return None;
         }
         let out = self.cur;
-        self.cur += self.step;
+        self.cur = self.cur.saturating_add(self.step);
         Some(out)
     }
 }
